@@ -275,6 +275,10 @@ CONTRACTS = [
              bound='4 relationship shapes x cascade option x required/optional x reference declared on the root entity or on a subclass x dependents (0 / 1-2) x loaded or not x obj.delete / Query.delete / bulk delete'),
     Contract('cascade_default_and_on_delete_clause', ['pony.orm.core:Attribute.linked', 'pony.orm.core:Database.generate_mapping'], _od_configs, _od_case,
              [('default_and_on_delete_follow_the_rule', _od_spec)], level='bounded', bound='2 shapes x 3 options x required/optional x declared on the root entity / on a subclass'),
+    Contract('bulk_delete_removes_exactly_the_selected_rows', ['pony.orm.core:Query.delete', 'pony.orm.sqltranslation:SQLTranslator.construct_delete_sql_ast', 'pony.orm.sqlbuilding:SQLBuilder.DELETE'],
+             __import__('contracts.c15_bulk', fromlist=['x']).configs, __import__('contracts.c15_bulk', fromlist=['x']).case,
+             [('the_rows_of_the_query_and_the_database_of_the_object_by_object_delete', __import__('contracts.c15_bulk', fromlist=['x']).spec)], level='bounded',
+             bound=__import__('contracts.c15_bulk', fromlist=['x']).BOUND),
 ]
 
 from contracts import c13 as _c13
